@@ -142,6 +142,22 @@ def generate(repo: str) -> tuple[str, str]:
     close = parse_function(ex_py, "close", cls="StreamFlowExecutor")
     if "terminate(Status.CANCELLED)" not in ast.unparse(close):
         raise TranslateError("close: does not terminate the steps with Status.CANCELLED")
+    # close() cancels and awaits the pending step tasks (`self.executions`); it may itself run inside one of them
+    # (`_handle_exception` of a step whose run() raised): does the selection leave out `asyncio.current_task()`?
+    comps = [c for c in ast.walk(close) if isinstance(c, (ast.ListComp, ast.GeneratorExp, ast.SetComp))
+             and any(ast.unparse(g.iter) == "self.executions" for g in c.generators)]
+    cancels_executions = bool(comps) and any(isinstance(n, ast.Call) and isinstance(n.func, ast.Attribute) and n.func.attr == "cancel"
+                                             for n in ast.walk(close))
+    cur_names = {ast.unparse(n.targets[0]) for n in ast.walk(close) if isinstance(n, ast.Assign)
+                 and ast.unparse(n.value) == "asyncio.current_task()"} | {"asyncio.current_task()"}
+    skips_current = bool(comps) and all(
+        any(isinstance(t, ast.Compare) and isinstance(t.ops[0], ast.IsNot) and ast.unparse(t.left) == g.target.id
+            and ast.unparse(t.comparators[0]) in cur_names
+            for cond in g.ifs for t in ([cond] if not isinstance(cond, ast.BoolOp) or not isinstance(cond.op, ast.And) else cond.values))
+        for c in comps for g in c.generators if ast.unparse(g.iter) == "self.executions" and isinstance(g.target, ast.Name))
+    if any(ast.unparse(g.iter) == "self.executions" and not isinstance(g.target, ast.Name) for c in comps for g in c.generators):
+        raise TranslateError("close: unexpected target in the comprehension over self.executions")
+    close_self_safe = (not cancels_executions) or skips_current
     # ---- LoopCombinatorStep.run: does a FAILED / CANCELLED loop input stop the re-reading of terminated ports? ----
     lrun = parse_function(step_py, "run", cls="LoopCombinatorStep")
     src = ast.unparse(lrun)
@@ -189,6 +205,9 @@ def cancelOn (c : Nat) : Bool := {cancel_on}
 def finalBad (c : Nat) : Bool := {final_bad}
 /-- `_cancel` terminates the steps (calls `self.close()`) instead of only setting `_closed` -/
 def cancelCallsClose : Bool := {'true' if calls_close else 'false'}
+/-- `close()` never cancels-and-awaits the task it is running in: it does not cancel the step tasks at all, or its selection
+    of `self.executions` leaves out `asyncio.current_task()` -/
+def closeSkipsCurrentTask : Bool := {'true' if close_self_safe else 'false'}
 /-- `LoopCombinatorStep.run` stops re-reading terminated ports after a FAILED / CANCELLED termination on a loop input
     (flag set on exactly these statuses, pending reads of terminated ports cancelled, flag in the re-read test) -/
 def loopStopsAfterFailure : Bool := {'true' if loop_stops else 'false'}
